@@ -1007,6 +1007,17 @@ pub mod slice {
                 size: chunk_size,
             }
         }
+
+        /// Like `par_chunks`, but the remainder (fewer than `chunk_size` elements) is left out.
+        fn par_chunks_exact(&self, chunk_size: usize) -> Chunks<'_, T> {
+            assert!(chunk_size != 0, "chunk_size must not be zero");
+            let slice = self.as_parallel_slice();
+            let len = slice.len() - slice.len() % chunk_size;
+            Chunks {
+                slice: &slice[..len],
+                size: chunk_size,
+            }
+        }
     }
 
     impl<T: Sync> ParallelSlice<T> for [T] {
@@ -1022,6 +1033,16 @@ pub mod slice {
             assert!(chunk_size != 0, "chunk_size must not be zero");
             ChunksMut {
                 slice: self.as_parallel_slice_mut(),
+                size: chunk_size,
+            }
+        }
+
+        fn par_chunks_exact_mut(&mut self, chunk_size: usize) -> ChunksMut<'_, T> {
+            assert!(chunk_size != 0, "chunk_size must not be zero");
+            let slice = self.as_parallel_slice_mut();
+            let len = slice.len() - slice.len() % chunk_size;
+            ChunksMut {
+                slice: &mut slice[..len],
                 size: chunk_size,
             }
         }
